@@ -332,6 +332,44 @@ def check_hmm(run, rec):
     return len(rec["cols"])
 
 
+def check_loci(run, rec):
+    """Several loci sharing one tree (SumDefn over the locus dimension): per-locus column likelihoods and the total lnL."""
+    from cogent3 import get_model, make_aligned_seqs, make_tree
+
+    key0 = f"loci:{rec['id']}"
+    tree = make_tree(rec["newick"])
+    sm = get_model("K80")
+    names = [f"locus{l}" for l in range(len(rec["loccols"]))]
+    leaves = [n for n in rec["leafname"] if n]
+    alns = []
+    for cols in rec["loccols"]:
+        seqs = {n: [] for n in leaves}
+        for col in cols:
+            for node, sym in col.items():
+                seqs[rec["leafname"][int(node) - 1]].append(sym)
+        alns.append(make_aligned_seqs({n: "".join(s) for n, s in seqs.items()}, moltype="dna"))
+    lf = sm.make_likelihood_function(tree, loci=names)
+    lf.set_alignment(alns)
+    for (ename, iname, par, ky, kr, mu, n1, q) in rec["edges"]:
+        qf = frac(q)
+        t = -float(frac(mu)) * n1 * math.log(float(qf)) if qf != 1 else 0.0
+        lf.set_param_rule("length", edge=ename, value=t, is_constant=True)
+    for l, (par, ky) in enumerate(rec["binpar"]):
+        lf.set_param_rule("kappa", locus=names[l], value=float(frac(ky)), is_constant=True)
+    n = 0
+    total = 0.0
+    for l, name in enumerate(names):
+        got = np.asarray(lf.get_full_length_likelihoods(locus=name), dtype=float)
+        want = [float(frac(v)) for v in rec["loclik"][l]]
+        total += sum(math.log(w) for w in want)
+        n += len(want)
+        if len(got) != len(want) or any(abs(g - w) > RTOL * w for g, w in zip(got, want)):
+            run.fail(f"{key0}:locus-column-likelihoods", {"id": rec["id"], "locus": l, "got": got.tolist(), "want": want}, what="per-column likelihoods of a locus differ from the exact sum-product of that locus's model on that locus's columns")
+    if abs(lf.lnL - total) > 1e-9 * max(1.0, abs(total)):
+        run.fail(f"{key0}:lnL", {"id": rec["id"], "got": lf.lnL, "want": total}, what="lnL is not the sum over loci of the log column likelihoods")
+    return n
+
+
 def check(run: Run):
     cfg = "MC_Felsenstein_quick.cfg" if run.tier == "quick" else "MC_Felsenstein_thorough.cfg"
     with Scratch("C02") as scratch:
@@ -344,6 +382,10 @@ def check(run: Run):
             if rec["id"] in seen:
                 continue
             seen.add(rec["id"])
+            if rec.get("loci"):
+                ncols += check_loci(run, rec)
+                run.sample({"config": rec["id"], "loci": len(rec["loccols"]), "exact_first_locus": rec["loclik"][0][:2]}, limit=6)
+                continue
             if rec.get("hmm"):
                 ncols += check_hmm(run, rec)
                 run.sample({"config": rec["id"], "switch": rec["switch"], "bprobs": rec["bprobs"], "exact_alignment_likelihood": rec["alnlik"]}, limit=6)
